@@ -14,16 +14,20 @@ ENTRIES = ["add", "add_single", "retrieve", "retrieve_single", "index_of", "inde
 # (arg, kind) per entry point
 ADD_FAULTS = [("solution", "rank"), ("solution", "inner"), ("objective", "rank"), ("objective", "length"),
               ("objective", "nan"), ("objective", "inf"), ("objective", "ninf"), ("objective", "none"),
+              ("objective", "overflow"), ("measures", "overflow"),
               ("measures", "rank"), ("measures", "inner"), ("measures", "length"), ("measures", "nan"),
               ("measures", "inf"), ("extra", "missing"), ("extra", "unknown"), ("extra", "length"),
-              ("extra", "inner")]
+              ("extra", "inner"), ("extra", "flat")]
 SINGLE_FAULTS = [("solution", "rank"), ("solution", "inner"), ("objective", "nan"), ("objective", "inf"),
                  ("objective", "none"), ("measures", "rank"), ("measures", "inner"), ("measures", "nan"),
                  ("measures", "ninf"), ("extra", "missing"), ("extra", "unknown"), ("extra", "inner")]
 QUERY_FAULTS = [("measures", "rank"), ("measures", "inner"), ("measures", "nan"), ("measures", "inf")]
 TELL_FAULTS = [("objective", "length"), ("objective", "nan"), ("objective", "rank"), ("measures", "inner"),
                ("measures", "length"), ("measures", "inf"), ("extra", "missing"), ("extra", "length"),
-               ("extra", "inner")]
+               ("extra", "inner"), ("objective", "overflow"), ("extra", "flat")]
+# kinds for which NumPy's own semantics may make the call valid (a flat array that happens to broadcast): the call
+# is first tried on a deep copy and injected only if that copy rejects it
+DRY_RUN_KINDS = {"flat"}
 
 
 def faults_for(entry):
@@ -47,6 +51,8 @@ def gen_fault(rng, layout, rows_fn, prox_noobj_ok=False):
             continue
         break
     n = 1 if entry in ("add_single", "retrieve_single", "index_of_single") else rng.choice([1, 2, 3, 5])
+    if kind == "flat":
+        n = rng.choice([3, 4, 5, 6])
     rows = [rows_fn() for _ in range(n)]
     return {"op": "bad", "entry": entry, "arg": arg, "kind": kind, "pos": rng.randrange(n), "rows": rows,
             "field": rng.randrange(8)}
@@ -62,14 +68,17 @@ def build_args(case, fault, dt, sol_dim, nd, layout):
     return sol, obj, meas, extras
 
 
-def corrupt(fault, sol, obj, meas, extras, layout, single):
+def corrupt(fault, sol, obj, meas, extras, layout, single, dt="f64"):
     """Apply the single malformation to the batch-form arguments.
 
     Returns (sol, obj, meas, extras) in the form the entry point takes (rows for the
     single-entry points), or None when the fault cannot be built for this layout.
     """
     arg, kind, pos = fault["arg"], fault["kind"], fault["pos"]
-    bad = {"nan": np.nan, "inf": np.inf, "ninf": -np.inf}
+    # "overflow": finite in float64 but not in a float32 archive (only a malformation there)
+    bad = {"nan": np.nan, "inf": np.inf, "ninf": -np.inf, "overflow": 1e39 if pos % 2 else -1e39}
+    if kind == "overflow" and dt != "f32":
+        return None
     if single:
         s1, o1, m1 = sol[0], obj[0], meas[0]
         e1 = {k: v[0] for k, v in extras.items()}
@@ -132,6 +141,13 @@ def corrupt(fault, sol, obj, meas, extras, layout, single):
                 extras = {k: v for k, v in extras.items() if k != name}
             elif kind == "length":
                 extras = dict(extras, **{name: np.concatenate([extras[name], extras[name][:1]])})
+            elif kind == "flat":
+                # a vector field passed without its trailing axis (one scalar per row)
+                vec = [n_ for n_ in names if extras[n_].ndim == 2 and extras[n_].dtype != object]
+                if not vec:
+                    return None
+                name = vec[fault["field"] % len(vec)]
+                extras = dict(extras, **{name: np.ascontiguousarray(extras[name][:, 0])})
             else:   # wrong inner shape
                 others = [n_ for n_ in names if extras[n_].dtype != object]
                 if not others:
@@ -141,15 +157,29 @@ def corrupt(fault, sol, obj, meas, extras, layout, single):
     return sol, obj, meas, extras
 
 
+def _twin_sched(archive, entry, n, sol_dim):
+    from ribs.emitters import GaussianEmitter
+    from ribs.schedulers import BanditScheduler, Scheduler
+    em = [GaussianEmitter(archive, sigma=0.5, x0=np.zeros(sol_dim), batch_size=n, seed=1)]
+    return Scheduler(archive, em) if entry == "sched_tell" else BanditScheduler(archive, em, num_active=1)
+
+
 def inject(archive, fault, dt, sol_dim, nd, layout, sched=None):
     """Perform the malformed call. Returns ('raised', exc_name) | ('accepted', None) | ('skip', why)."""
     entry = fault["entry"]
     single = entry in ("add_single", "retrieve_single", "index_of_single")
     sol, obj, meas, extras = build_args(None, fault, dt, sol_dim, nd, layout)
-    out = corrupt(fault, sol, obj, meas, extras, layout, single)
+    out = corrupt(fault, sol, obj, meas, extras, layout, single, dt)
     if out is None:
-        return "skip", "no non-object extra field"
+        return "skip", "fault not applicable to this layout / dtype"
     sol, obj, meas, extras = out
+    if fault["kind"] in DRY_RUN_KINDS and not fault.get("_dry"):
+        import copy
+        twin = copy.deepcopy(archive)
+        res, exc = inject(twin, dict(fault, _dry=True), dt, sol_dim, nd, layout,
+                          sched=(lambda entry, n: _twin_sched(twin, entry, n, sol_dim)) if sched else None)
+        if res != "raised":
+            return "skip", "NumPy broadcasting makes this call valid in this state"
     try:
         if entry == "add":
             archive.add(sol, obj, meas, **extras)
